@@ -42,7 +42,7 @@ section Congr
 variable {env : Env} {ctx' : Ctx}
 
 theorem segMatchValues_ctx {rec rec' : Spec.SegRec}
-    (hrec : ∀ s ∈ env.store.segments, ∀ chain, rec' s chain = rec s chain)
+    (hrec : ∀ s ∈ env.store.segments.map (·.2), ∀ chain, rec' s chain = rec s chain)
     (negate : Bool) (chain : List String) :
     ∀ vs, Spec.segMatchValues rec' (withCtx env ctx') negate chain vs =
       Spec.segMatchValues rec env negate chain vs := by
@@ -57,7 +57,7 @@ theorem segMatchValues_ctx {rec rec' : Spec.SegRec}
       cases hf : env.store.findSegment k with
       | none => exact ih
       | some seg =>
-        have hmem : seg ∈ env.store.segments := List.mem_of_find?_eq_some hf
+        have hmem : seg ∈ env.store.segments.map (·.2) := Store.findSegment_mem hf
         simp only [hrec seg hmem, ih]
     | null => simp only [Spec.segMatchValues]; exact ih
     | bool b => simp only [Spec.segMatchValues]; exact ih
@@ -66,7 +66,7 @@ theorem segMatchValues_ctx {rec rec' : Spec.SegRec}
     | obj kvs => simp only [Spec.segMatchValues]; exact ih
 
 theorem clauseMatch_ctx {rec rec' : Spec.SegRec}
-    (hrec : ∀ s ∈ env.store.segments, ∀ chain, rec' s chain = rec s chain)
+    (hrec : ∀ s ∈ env.store.segments.map (·.2), ∀ chain, rec' s chain = rec s chain)
     (chain : List String) (c : Clause) (hc : ClauseOK env ctx' c) :
     Spec.clauseMatch rec' (withCtx env ctx') chain c = Spec.clauseMatch rec env chain c := by
   unfold Spec.clauseMatch
@@ -81,7 +81,7 @@ theorem clauseMatch_ctx {rec rec' : Spec.SegRec}
       rw [hc]
 
 theorem clausesMatch_ctx {rec rec' : Spec.SegRec}
-    (hrec : ∀ s ∈ env.store.segments, ∀ chain, rec' s chain = rec s chain)
+    (hrec : ∀ s ∈ env.store.segments.map (·.2), ∀ chain, rec' s chain = rec s chain)
     (chain : List String) :
     ∀ cs, (∀ c ∈ cs, ClauseOK env ctx' c) →
       Spec.clausesMatch rec' (withCtx env ctx') chain cs = Spec.clausesMatch rec env chain cs := by
@@ -94,7 +94,7 @@ theorem clausesMatch_ctx {rec rec' : Spec.SegRec}
       ih (fun c' hc' => h c' (List.mem_cons_of_mem _ hc'))]
 
 theorem segRuleMatch_ctx {rec rec' : Spec.SegRec}
-    (hrec : ∀ s ∈ env.store.segments, ∀ chain, rec' s chain = rec s chain)
+    (hrec : ∀ s ∈ env.store.segments.map (·.2), ∀ chain, rec' s chain = rec s chain)
     (chain : List String) (key salt : String) (r : SegmentRule)
     (hc : ∀ c ∈ r.clauses, ClauseOK env ctx' c)
     (hb : r.weight = none ∨ BucketOK env ctx' false r.rolloutContextKind r.bucketBy) :
@@ -114,7 +114,7 @@ theorem segRuleMatch_ctx {rec rec' : Spec.SegRec}
     rw [this]; rfl
 
 theorem segRules_ctx {rec rec' : Spec.SegRec}
-    (hrec : ∀ s ∈ env.store.segments, ∀ chain, rec' s chain = rec s chain)
+    (hrec : ∀ s ∈ env.store.segments.map (·.2), ∀ chain, rec' s chain = rec s chain)
     (chain : List String) (s : Segment) :
     ∀ rs, (∀ r ∈ rs, (∀ c ∈ r.clauses, ClauseOK env ctx' c) ∧
         (r.weight = none ∨ BucketOK env ctx' false r.rolloutContextKind r.bucketBy)) →
@@ -129,7 +129,7 @@ theorem segRules_ctx {rec rec' : Spec.SegRec}
       ih (fun r' hr' => h r' (List.mem_cons_of_mem _ hr'))]
 
 theorem segBody_ctx {rec rec' : Spec.SegRec}
-    (hrec : ∀ s ∈ env.store.segments, ∀ chain, rec' s chain = rec s chain)
+    (hrec : ∀ s ∈ env.store.segments.map (·.2), ∀ chain, rec' s chain = rec s chain)
     (s : Segment) (hs : SegOK env ctx' s) (chain : List String) :
     Spec.segBody rec' (withCtx env ctx') s chain = Spec.segBody rec env s chain := by
   obtain ⟨h1, h2, h3⟩ := hs
@@ -144,8 +144,8 @@ theorem segBody_ctx {rec rec' : Spec.SegRec}
     else (match segLists ctx' s with | some b => _ | none => _)) = _
   rw [h1, h2]; rfl
 
-theorem segContains_ctx (hS : ∀ s ∈ env.store.segments, SegOK env ctx' s) (n : Nat) :
-    ∀ s ∈ env.store.segments, ∀ chain,
+theorem segContains_ctx (hS : ∀ s ∈ env.store.segments.map (·.2), SegOK env ctx' s) (n : Nat) :
+    ∀ s ∈ env.store.segments.map (·.2), ∀ chain,
       Spec.segContains n (withCtx env ctx') s chain = Spec.segContains n env s chain := by
   induction n with
   | zero => intro s _ chain; rfl
@@ -180,7 +180,7 @@ theorem getValueForVR_ctx (f : Flag) (vr : VariationOrRollout) (h : VROK env ctx
   rw [variationOrRollout_ctx vr h]
 
 theorem rulesLoop_ctx {seg seg' : Spec.SegRec}
-    (hseg : ∀ s ∈ env.store.segments, ∀ chain, seg' s chain = seg s chain)
+    (hseg : ∀ s ∈ env.store.segments.map (·.2), ∀ chain, seg' s chain = seg s chain)
     (f : Flag) (hft : VROK env ctx' f.fallthrough) :
     ∀ rs i, (∀ r ∈ rs, (∀ c ∈ r.clauses, ClauseOK env ctx' c) ∧ VROK env ctx' r.vr) →
       Spec.rulesLoop seg' (withCtx env ctx') f rs i = Spec.rulesLoop seg env f rs i := by
@@ -194,7 +194,7 @@ theorem rulesLoop_ctx {seg seg' : Spec.SegRec}
       ih (i + 1) (fun r' hr' => h r' (List.mem_cons_of_mem _ hr'))]
 
 theorem prereqLoop_ctx {rec rec' : Spec.FlagRec}
-    (hrec : ∀ pf ∈ env.store.flags, ∀ chain, rec' pf chain = rec pf chain) (chain : List String) :
+    (hrec : ∀ pf ∈ env.store.flags.map (·.2), ∀ chain, rec' pf chain = rec pf chain) (chain : List String) :
     ∀ ps, Spec.prereqLoop rec' (withCtx env ctx') chain ps = Spec.prereqLoop rec env chain ps := by
   intro ps
   induction ps with
@@ -205,12 +205,12 @@ theorem prereqLoop_ctx {rec rec' : Spec.FlagRec}
     cases hf : env.store.findFlag p.key with
     | none => rfl
     | some pf =>
-      have hmem : pf ∈ env.store.flags := List.mem_of_find?_eq_some hf
+      have hmem : pf ∈ env.store.flags.map (·.2) := Store.findFlag_mem hf
       simp only [hrec pf hmem, ih]
 
 theorem evalBody_ctx {rec rec' : Spec.FlagRec} {seg seg' : Spec.SegRec}
-    (hrec : ∀ pf ∈ env.store.flags, ∀ chain, rec' pf chain = rec pf chain)
-    (hseg : ∀ s ∈ env.store.segments, ∀ chain, seg' s chain = seg s chain)
+    (hrec : ∀ pf ∈ env.store.flags.map (·.2), ∀ chain, rec' pf chain = rec pf chain)
+    (hseg : ∀ s ∈ env.store.segments.map (·.2), ∀ chain, seg' s chain = seg s chain)
     (f : Flag) (hf : FlagOK env ctx' f) (chain : List String) :
     Spec.evalBody rec' seg' (withCtx env ctx') f chain = Spec.evalBody rec seg env f chain := by
   obtain ⟨h1, h2, h3⟩ := hf
@@ -227,8 +227,8 @@ theorem evalBody_ctx {rec rec' : Spec.FlagRec} {seg seg' : Spec.SegRec}
 segment of the store, read the same from `ctx'` as from the environment's context — targets,
 clause by clause, rollout by rollout, segment list by segment list — then evaluation on `ctx'`
 gives the same result. -/
-theorem evalFlag_ctx (hF : ∀ fl ∈ env.store.flags, FlagOK env ctx' fl)
-    (hS : ∀ s ∈ env.store.segments, SegOK env ctx' s) (sf n : Nat) :
+theorem evalFlag_ctx (hF : ∀ fl ∈ env.store.flags.map (·.2), FlagOK env ctx' fl)
+    (hS : ∀ s ∈ env.store.segments.map (·.2), SegOK env ctx' s) (sf n : Nat) :
     ∀ f, FlagOK env ctx' f → ∀ chain,
       Spec.evalFlag sf n (withCtx env ctx') f chain = Spec.evalFlag sf n env f chain := by
   induction n with
